@@ -159,6 +159,72 @@ Example abq_if_puts_into_full_queue :
   q_cnt s = 2 /\ q_cap s = 1.
 Proof. vm_compute. split; reflexivity. Qed.
 
+(* (d') ONE condition variable for both directions (cv_not_empty and cv_not_full merged; put and
+   take still wait in `while` loops and notify_one after every state change).  "The queue cannot
+   be full and empty at once, so producers and consumers never wait together" is wrong: a woken
+   producer that has not yet re-acquired the mutex and a consumer that finds the queue empty again
+   do wait together, and then a notify_one can go to a waiter of the wrong kind, which re-sleeps.
+   abq_cv_waiters_homogeneous fails by construction: a notify may wake ANY sleeper.  (Seeded
+   change C03-8.) *)
+Definition q_anyasleep (s : qsys) (u : nat) : bool :=
+  match q_pc (q_thr s u) with QPAsleep | QCAsleep => true | _ => false end.
+Definition q_wake_any (s : qsys) (u : nat) : qsys :=
+  qset s u (qpcset (q_thr s u) (match q_pc (q_thr s u) with QPAsleep => QPWoken | _ => QCWoken end)).
+Definition qstep_onecv (s : qsys) (t : nat) (ch : nat) : option (qsys * label) :=
+  let x := q_thr s t in
+  match q_pc x with
+  | QPSig =>
+    if Nat.leb (q_n s) t then None else
+    let w := pick_waiter (q_anyasleep s) (q_n s) ch in
+    let s1 := match w with Some u => q_wake_any s u | None => s end in
+    Some (qset s1 t (qpcset x QPSeg2), ev OCvsig qc_ne MoNone (zcount w) (zfirst w) 0)
+  | QCSig =>
+    if Nat.leb (q_n s) t then None else
+    let w := pick_waiter (q_anyasleep s) (q_n s) ch in
+    let s1 := match w with Some u => q_wake_any s u | None => s end in
+    Some (qset s1 t (qpcset x QCSeg2), ev OCvsig qc_ne MoNone (zcount w) (zfirst w) 0)
+  | _ => qstep s t ch
+  end.
+(* capacity 1, consumer (tid 0, three takes), producers tid 1 (two puts) and tid 2 (one put):
+   P1 fills the queue; P1 and P2 sleep on the full queue; the consumer takes, its notify wakes P1;
+   the consumer comes back first, finds the queue empty and sleeps on the same condition variable;
+   P1 puts, and its notify_one goes to P2 (choice 3 = thread 2), who finds the queue full and
+   sleeps again.  Consumer asleep with a message queued, P2 asleep holding another, P1 finished. *)
+Definition q_onecv_sched : list (nat * nat) :=
+  (repeat (1,0) 6 ++ repeat (1,0) 4 ++ repeat (2,0) 4 ++
+   [(0,0);(0,0);(0,0);(0,2);(0,0);(0,0)] ++ repeat (0,0) 4 ++
+   [(1,0);(1,0);(1,3);(1,0);(1,0);(1,0);(1,0)] ++ repeat (2,0) 3)%nat.
+Definition q_onecv_init : qsys :=
+  qinit 3 1 1 (fun t => match t with O => 3%nat | 1%nat => 2%nat | _ => 1%nat end).
+Example abq_single_cv_deadlocks :
+  let s := exec qsys qstep_onecv q_onecv_init q_onecv_sched in
+  q_pc (q_thr s 0%nat) = QCAsleep /\ q_cnt s = 1 /\                (* consumer asleep, a message queued *)
+  q_pc (q_thr s 2%nat) = QPAsleep /\ q_done s 1%nat /\             (* a producer asleep, the other finished *)
+  q_m s = None /\
+  (forall t, (t < 3)%nat -> qstep_onecv s t 0 = None).             (* nobody can ever run again *)
+Proof.
+  cbv zeta. repeat split;
+    try (intros [|[|[|u]]] H; [vm_compute; reflexivity|vm_compute; reflexivity|vm_compute; reflexivity|lia]);
+    vm_compute; reflexivity.
+Qed.
+(* ... and the per-sleeper invariant of the faithful model is violated in that state: a consumer
+   sleeps although the queue holds an item and no wake token is in flight *)
+Example abq_single_cv_breaks_invariant :
+  ~ QInv (exec qsys qstep_onecv q_onecv_init q_onecv_sched).
+Proof.
+  intros [_ _ _ _ Hne].
+  assert (E1 : A_ne (exec qsys qstep_onecv q_onecv_init q_onecv_sched) = 1%nat) by (vm_compute; reflexivity).
+  assert (E2 : T_ne (exec qsys qstep_onecv q_onecv_init q_onecv_sched) = 0%nat) by (vm_compute; reflexivity).
+  assert (E3 : q_cnt (exec qsys qstep_onecv q_onecv_init q_onecv_sched) = 1) by (vm_compute; reflexivity).
+  rewrite E1, E2, E3 in Hne. specialize (Hne ltac:(lia)). lia.
+Qed.
+(* the same schedule on the faithful model (two condition variables): put's notify can only reach
+   the consumer, whatever the choice, and everybody gets on *)
+Example abq_two_cvs_same_schedule_fine :
+  let s := exec qsys qstep q_onecv_init q_onecv_sched in
+  q_pc (q_thr s 0%nat) <> QCAsleep /\ exists t, (t < 3)%nat /\ qstep s t 0 <> None.
+Proof. cbv zeta. split; [vm_compute; discriminate|exists 0%nat; split; [lia|vm_compute; discriminate]]. Qed.
+
 (* ------------------------------------------------------------------ *)
 (* (e) double buffer: `if` instead of `while` in write: a spuriously woken writer appends to the
    full back buffer (index = capacity: out of bounds in the C code) *)
